@@ -3,7 +3,7 @@
    sqr = schoolbook square, and modin(A,U) = A modulo a multiple of U.  The reduction `mod` (= divmod) is covered by the
    proved division identity, the products by the proved Karatsuba/schoolbook theorem. *)
 From Coq Require Import List Arith Lia Setoid Morphisms Ring Bool ZArith PArith.
-From C08 Require Import Model Spec ProofsBasic ProofsKara ProofsDiv.
+From C08 Require Import Model Spec ProofsBasic ProofsKara ProofsDiv ProofsSqr.
 Import ListNotations.
 
 Section Pow.
@@ -115,5 +115,14 @@ Proof.
   { apply cong_mul. apply cong_of_eqv. unfold assign. apply (setdegree_eqv D OK).
     apply cong_ppw. apply (mod_cong kthr sthr (setdegree D U0) Hk). }
   apply cong_of_eqv. rewrite ppw_pun. ring.
+Qed.
+
+(* with the proved squaring theorem only the modin step remains a hypothesis *)
+Lemma powmod_cong_sqr : forall kthr sthr P U0 (e : positive), 1 <= kthr -> 1 <= sthr ->
+  (forall A, cong (setdegree D U0) (modin D A (setdegree D U0)) A) ->
+  cong (setdegree D U0) (powmod D kthr sthr P (Npos e) U0) (pun P (Pos.to_nat e)).
+Proof.
+  intros kthr sthr P U0 e Hk Hs Hm. apply powmod_cong; try assumption.
+  intros A. constructor. apply (sqr_spec D OK); assumption.
 Qed.
 End Pow.
